@@ -13,7 +13,7 @@ Definition Lset : cset := class_of frag_PROPTYPE.   (* UnicodeLetter *)
 Definition Kset : cset := class_of frag_PROPKEY.    (* UnicodeLetter | UnicodeDigit | _ *)
 Definition Tset : cset := class_of (r_re (rule_at 7)).   (* TEXT characters *)
 Definition Wset : cset := class_of (r_re (rule_at 8)).   (* white space *)
-Definition Dot : cset := CRanges [(46%N, 46%N)].
+Notation Dot := (CRanges [(46%N, 46%N)]).
 
 Lemma grammar_shapes :
   r_re (rule_at 0) = Chr (CRanges [(40%N, 40%N)]) /\ r_skip (rule_at 0) = false /\ r_kind (rule_at 0) = LPAREN
@@ -27,6 +27,23 @@ Lemma grammar_shapes :
   /\ r_re (rule_at 8) = Cat (Chr Wset) (Star (Chr Wset)) /\ r_skip (rule_at 8) = true
   /\ r_re (rule_at 9) = Chr CAny.
 Proof. repeat split. Qed.
+
+(* the same, one fact at a time (kept out of proof contexts: they mention the whole table) *)
+Lemma re0 : r_re (rule_at 0) = Chr (CRanges [(40%N, 40%N)]). Proof. reflexivity. Qed.
+Lemma sk0 : r_skip (rule_at 0) = false. Proof. reflexivity. Qed.
+Lemma kd0 : r_kind (rule_at 0) = LPAREN. Proof. reflexivity. Qed.
+Lemma re1 : r_re (rule_at 1) = Chr (CRanges [(41%N, 41%N)]). Proof. reflexivity. Qed.
+Lemma sk1 : r_skip (rule_at 1) = false. Proof. reflexivity. Qed.
+Lemma kd1 : r_kind (rule_at 1) = RPAREN. Proof. reflexivity. Qed.
+Lemma re6 : r_re (rule_at 6) = Cat (Alt (Cat (Cat (Chr Lset) (Star (Chr Lset))) (Chr Dot)) Eps) (Cat (Chr Kset) (Star (Chr Kset))).
+Proof. reflexivity. Qed.
+Lemma sk6 : r_skip (rule_at 6) = false. Proof. reflexivity. Qed.
+Lemma kd6 : r_kind (rule_at 6) = PROPERTY. Proof. reflexivity. Qed.
+Lemma re7 : r_re (rule_at 7) = Cat (Chr Tset) (Star (Chr Tset)). Proof. reflexivity. Qed.
+Lemma sk7 : r_skip (rule_at 7) = false. Proof. reflexivity. Qed.
+Lemma kd7 : r_kind (rule_at 7) = TEXT. Proof. reflexivity. Qed.
+Lemma re8 : r_re (rule_at 8) = Cat (Chr Wset) (Star (Chr Wset)). Proof. reflexivity. Qed.
+Lemma sk8 : r_skip (rule_at 8) = true. Proof. reflexivity. Qed.
 
 (* membership facts, by computation *)
 Definition inK (c : N) : bool := in_cset c Kset.
@@ -86,3 +103,6 @@ Proof.
   apply andb_prop in HS. destruct HS as [HS S3]. apply andb_prop in HS. destruct HS as [S1 S2].
   apply negb_true_iff in S3. auto.
 Qed.
+
+(* from here on the four classes are used through the facts above only *)
+Global Opaque Lset Kset Tset Wset.
